@@ -77,7 +77,8 @@ META = {
   rule="for each of the 43 RDATA kinds 25 (thorough 400) records, each both built from parts and borrowed from a receive buffer: into_owned and clone compared with the original through every accessor (canonical text), ==, both serialisers and Hash; pairs differing only in TTL/cache-flush, and pairs of different records, through == / DefaultHasher / HashSet::contains; questions; names built from parts vs received; InstanceInformation built by inserting the same addresses and ports in different orders; compared with the model's into_owned / hash feeds",
   assumptions=STD + ["std Hash of slices/Vec/primitive types feeds length prefix and content; DefaultHasher is a function of the feed"], timeout=dict(quick=600, thorough=7200)),
  "C14": dict(
-  rule="datagrams of length 0..9000 (empty, 1..12 bytes, reference-encoded messages with hostile names, RDLENGTH/count perturbations, truncations) against stores holding 0..3 arbitrary records (hostile names: invalid UTF-8, 63-byte labels, dots and backslashes; half of them aimed at the datagram's question names): the responder's loop body (has_flags.unwrap_or(true), Packet::parse, build_reply, build_bytes_vec_compressed) and the discovery listener's (parse, sync and async add_response_to_resources or reply, then a cache query on the same store) run through the simple_mdns::verif hooks under catch_unwind and compared with the model's handleResponder / handleDiscovery on (none | parsed reply, cached records); oracle: no panic, every reply re-parses, async = sync; plus one live run: SimpleMdnsResponder on loopback multicast answers a query, receives 400 (thorough 4000) hostile datagrams and three short ones, and must still answer (counted sockets-not-exercised when the first query gets no answer); 500 (thorough 4000) well-formed announcements and goodbyes for the watched service with TTL 0 / 1 / 2^31 / 2^32-1, flush bits and hostile instance labels go through the same pipelines; two more live runs: OneShotMdnsResolver::query_service_address with a pending query receives 250 hostile datagrams forced past its header peek (response bit, id 0, an answer count), a non-address answer and the address (it must return, and with 127.0.0.9 if it answers), and ServiceDiscovery receives 120 announcements/goodbyes with the hostile TTLs plus 150 hostile datagrams and must then still discover a plain announcement (get_known_services must not panic on a poisoned lock); the same three live runs for the tokio flavour (async_discovery) on one current-thread runtime; a 20 KB reply; RDATA of the rare types cut at every length as probe and as response; OPT option lengths at the top of the 16-bit range; stores holding NSEC values with windows out of order",
+  extra_modules=["TieEnv"],
+  rule="datagrams of length 0..9000 (empty, 1..12 bytes, reference-encoded messages with hostile names, RDLENGTH/count perturbations, truncations) against stores holding 0..3 arbitrary records (hostile names: invalid UTF-8, 63-byte labels, dots and backslashes; half of them aimed at the datagram's question names): the responder's loop body (has_flags.unwrap_or(true), Packet::parse, build_reply, build_bytes_vec_compressed) and the discovery listener's (parse, sync and async add_response_to_resources or reply, then a cache query on the same store) run through the simple_mdns::verif hooks under catch_unwind and compared with the model's handleResponder / handleDiscovery on (none | parsed reply, cached records); oracle: no panic, every reply re-parses, async = sync; plus one live run: SimpleMdnsResponder on loopback multicast answers a query, receives 400 (thorough 4000) hostile datagrams and three short ones, two queries of 400 and 1400 questions for a registered 250-byte TXT record (replies of 100 KB and 370 KB, which no datagram carries), and must still answer (counted sockets-not-exercised when the first query gets no answer); 500 (thorough 4000) well-formed announcements and goodbyes for the watched service with TTL 0 / 1 / 2^31 / 2^32-1, flush bits and hostile instance labels go through the same pipelines; two more live runs: OneShotMdnsResolver::query_service_address with a pending query receives 250 hostile datagrams forced past its header peek (response bit, id 0, an answer count), a non-address answer and the address (it must return, and with 127.0.0.9 if it answers), and ServiceDiscovery receives 120 announcements/goodbyes with the hostile TTLs plus 150 hostile datagrams and must then still discover a plain announcement (get_known_services must not panic on a poisoned lock); the same three live runs for the tokio flavour (async_discovery) on one current-thread runtime; a 20 KB reply; RDATA of the rare types cut at every length as probe and as response; OPT option lengths at the top of the 16-bit range; stores holding NSEC values with windows out of order",
   assumptions=STD + ["threads, sockets and lock poisoning are not modelled; the live run samples them"], timeout=dict(quick=900, thorough=7200)),
  "C15": dict(
   rule="1..3 peers per history, each advertising an instance (valid single-label names, 0..4 IPv4/IPv6 addresses, 0..2 ports, 0..3 attributes with absent/empty/non-empty values, multi-byte keys and values, one key in 30 empty): InstanceInformation::into_records, a compressed response packet (sometimes carrying records of a foreign service, of the discoverer's own instance, or of the service name itself), Packet::parse, add_response_to_resources into a store initialised like ServiceDiscovery::new, get_domain_resources(cached) + from_records; the set of discovered instances compared with the model and with the advertised ones; plus escape/unescape of 2000 (thorough 20000) strings over {a . \\ e-acute space U+013B z -}",
